@@ -104,6 +104,7 @@ class QModel:
                         todo.append(cad.bodies[r_])
         self.stop = []
         self.submit = []
+        sending = []
         for b0 in wm:
             if b0 in self.run:
                 continue
@@ -122,12 +123,26 @@ class QModel:
                     if not _path_has_field(ct[2][0], self.f_sender):
                         continue
                     pay = ct[2][1]
-                    if pay[0] == 'adt' and pay[2] == 'None':
-                        if b0 not in self.stop:
-                            self.stop.append(b0)
-                    elif pay[0] == 'adt' and pay[2] == 'Some':
-                        if b0 not in self.submit:
-                            self.submit.append(b0)
+                    sending.append((b0, pay))
+        # which sending entry point is which: the one reached from MetricSink::emit enqueues metrics, the one reached from a
+        # destructor asks the worker to stop; the two message variants are whatever those two send (Option's Some/None
+        # today, any two-variant message enum otherwise)
+        self.v_metric = self.v_marker = None
+        for b0, pay in sending:
+            roots = self._caller_kinds(b0)
+            if 'emit' in roots and 'drop' not in roots:
+                if b0 not in self.submit:
+                    self.submit.append(b0)
+                if pay[0] == 'adt':
+                    self.v_metric = pay[2] if self.v_metric in (None, pay[2]) else '?'
+            elif 'drop' in roots and 'emit' not in roots:
+                if b0 not in self.stop:
+                    self.stop.append(b0)
+                if pay[0] == 'adt':
+                    self.v_marker = pay[2] if self.v_marker in (None, pay[2]) else '?'
+        if self.v_metric in (None, '?') or self.v_marker in (None, '?') or self.v_metric == self.v_marker:
+            rep.anchor_lost('Q0', 'message variants sent by emit (%s) and by the destructor (%s): the stop marker must be a variant of its own' % (self.v_metric, self.v_marker))
+            return
         self.build = cad.method(QB, 'build')
         # stats getters on the public handle
         self.counters = {}
@@ -184,6 +199,27 @@ class QModel:
                   self.sentinel_drop):
             rep.analysed(b)
         self.ok = True
+
+    def _caller_kinds(self, b0):
+        """kinds of entry points from which b0 is (transitively) called: 'emit' (a MetricSink::emit impl), 'drop' (a Drop impl)"""
+        cad = self.cad
+        kinds = set()
+        seen = set()
+        todo = [b0.path]
+        while todo:
+            p_ = todo.pop()
+            if p_ in seen:
+                continue
+            seen.add(p_)
+            for y in cad.all_bodies:
+                if any(t.get('resolved') == p_ for _, t in y.calls()):
+                    owner = cad.bodies.get(_fn_owner(cad, y), y)
+                    if owner.impl_trait == SINK_TRAIT and owner.name == 'emit':
+                        kinds.add('emit')
+                    elif owner.impl_trait == DROP_TRAIT:
+                        kinds.add('drop')
+                    todo.append(owner.path)
+        return kinds
 
     def _closure_args(self, body, is_call):
         """closure literals handed as an argument to the calls selected by is_call (the role, not the count of closures)"""
